@@ -229,7 +229,12 @@ class DFXPReader(BaseReader):
                 # content of the tag variable at this point should be a plain
                 # unicode string with xml entities already converted to unicode
                 # characters.
-                tag_text = result.groups()[0]
+                # text wrapped over several source lines keeps all of its
+                # lines (the pattern above stops at the first line break): the
+                # trailing line break and indentation go away, an inner line
+                # wrap becomes a single space
+                tag_text = re.sub("[\n\r]+\\s*$", "", tag[result.start(1):])
+                tag_text = re.sub("\\s*[\n\r]+\\s*", " ", tag_text)
                 node = CaptionNode.create_text(
                     tag_text, layout_info=tag.layout_info)
                 self.nodes.append(node)
